@@ -89,7 +89,7 @@ def vary_span_si(rng, ej, *, allow_gain_mode=True, allow_eol=True, allow_policy=
         span['power_slope'] = pick(rng, [0.3, 0.2, 0.33, 0.5])
         span['span_loss_ref'] = pick(rng, [20.0, 18.0, 22.5])
     if rng.random() < 0.3:
-        span['voa_margin'] = pick(rng, [1, 0.5, 2])
+        span['voa_margin'] = pick(rng, [1, 0.5, 2, 0])
         span['voa_step'] = pick(rng, [0.5, 0.25, 1])
     if vary_grid and rng.random() < 0.35:
         # another reference channel / another design band than the stock 32 GBd on 50 GHz over the full C band
